@@ -692,6 +692,14 @@ func (g *Gen) evalSlice(env *Env, x *ESlice) Val {
 	panic(evalErr("cannot slice " + x.X.String()))
 }
 
+// substrWhole: slicing a string over its whole length gives the string itself.
+func (g *Gen) substrWhole() {
+	if !g.declared["ax:s.sub.whole"] && g.mode == ModeInt {
+		g.declared["ax:s.sub.whole"] = true
+		g.emit("(assert (forall ((s Str)) (! (= (s.sub s 0 (s.len s)) s) :pattern ((s.sub s 0 (s.len s))))))")
+	}
+}
+
 // substrPure: substring term whose defining facts are global axioms (quantified over the arguments),
 // so that it may appear under quantifiers in contracts.
 func (g *Gen) substrPure(s, lo, hi string) Val {
@@ -701,6 +709,7 @@ func (g *Gen) substrPure(s, lo, hi string) Val {
 		g.emit("(assert (forall ((s Str) (a Int) (b Int)) (! (=> (and (<= 0 a) (<= a b) (<= b (s.len s))) (= (s.len (s.sub s a b)) (- b a))) :pattern ((s.sub s a b)))))")
 		g.emit("(assert (forall ((s Str) (a Int) (b Int) (i Int)) (! (=> (and (<= 0 a) (<= a b) (<= b (s.len s)) (<= 0 i) (< i (- b a))) (= (s.at (s.sub s a b) i) (s.at s (+ a i)))) :pattern ((s.at (s.sub s a b) i)))))")
 	}
+	g.substrWhole()
 	return Val{T: types.Typ[types.String], S: fmt.Sprintf("(s.sub %s %s %s)", s, lo, hi)}
 }
 
